@@ -57,9 +57,10 @@ struct Kind {
   const char *name;
   const type_traits *traits, *alias;
   size_t size;
-  std::unique_ptr<type_traits> own_alias;
+  std::unique_ptr<type_traits> own_alias, wide;  // wide: same finaliser and constructor, twice the element size (managed part first)
   Kind(const char *n, const type_traits *t, const type_traits *a = 0) : name(n), traits(t), alias(a), size(t->size) {
     if (!alias) { own_alias.reset(new type_traits(t->size, t->fini, t->init)); alias = own_alias.get(); }
+    wide.reset(new type_traits(t->size * 2, t->fini, t->init));
   }
   virtual ~Kind() {}
   virtual uint32_t draw(Ctx &c) = 0;                    // a value that can be constructed right now
@@ -307,33 +308,34 @@ struct IdentKind : Kind {
 };
 
 struct CfgItemKind : MetaUser {
-  // value v: 0 default; 1..NNames: name kNames[v], metatype #((v-1)%R+1); +NNames: with one child item
+  // value v = name index (0..NNames, 0 = unnamed) | value metatype # << 4 (0 = none) | "has an elements buffer" << 8
+  // (0 is the default constructed item). Drawn items: name n with metatype #((n-1)%R+1), optionally with one child item.
+  // Items without name but with a value or children are the "unused" state mpt_config_item_reserve anticipates.
+  static uint32_t enc(uint32_t name, uint32_t r, bool child) { return name | (r << 4) | (child ? 256u : 0u); }
   CfgItemKind() : MetaUser("cfgitem", mpt_config_item_traits()) {}
   uint32_t draw(Ctx &c) override {
     uint32_t v = (uint32_t)c.range(0, 2 * NNames);
     if (!v) return 0;
-    uint32_t base = (v - 1) % NNames + 1;
-    if (obj[(base - 1) % R + 1]->destroyed) return 0;
-    return v;
+    uint32_t base = (v - 1) % NNames + 1, r = (base - 1) % R + 1;
+    if (obj[r]->destroyed) return 0;
+    return enc(base, r, v > NNames);
   }
   void make(void *p, uint32_t v) override {
     config_item *it = (config_item *)p;
     traits->init(p, 0);
     if (!v) return;
-    uint32_t base = (v - 1) % NNames + 1;
-    HMeta *m = obj[(base - 1) % R + 1];
-    mpt_identifier_set((identifier *)&it_ident(it), kNames[base], -1);
-    ++m->refs;
-    it_value(it) = m;
-    if (v > NNames) {
+    uint32_t name = v & 15, r = (v >> 4) & 15;
+    HMeta *m = r ? obj[r] : 0;
+    if (name) mpt_identifier_set((identifier *)&it_ident(it), kNames[name], -1);
+    if (m) { ++m->refs; it_value(it) = m; }
+    if (v & 256) {
       buffer *b = _mpt_buffer_alloc(sizeof(config_item), BufferNoCopy);  // like mpt_config_item_reserve
       b->_content_traits = traits;
       config_item *child = (config_item *)(b + 1);
       traits->init(child, 0);
       b->_used = sizeof(config_item);
       mpt_identifier_set(&it_ident(child), "child", -1);
-      ++m->refs;
-      it_value(child) = m;
+      if (m) { ++m->refs; it_value(child) = m; }
       it_elements(it) = (CBuf *)b;
     }
   }
@@ -341,7 +343,7 @@ struct CfgItemKind : MetaUser {
   static CBuf *&it_elements(const config_item *it) { return *(CBuf **)it; }
   static void *&it_value(const config_item *it) { return *(void **)((uint8_t *)it + sizeof(void *)); }
   static identifier &it_ident(const config_item *it) { return *(identifier *)((uint8_t *)it + 2 * sizeof(void *)); }
-  uint32_t copy_of(uint32_t v) override { return v > NNames ? v - NNames : v; }  // _init_config_item copies name and value, not the children
+  uint32_t copy_of(uint32_t v) override { return v & ~256u; }  // _init_config_item copies name and value, not the children
   bool read(const void *p, uint32_t &v, std::string &why) override {
     const config_item *it = (const config_item *)p;
     const identifier &id = it_ident(it);
@@ -350,15 +352,10 @@ struct CfgItemKind : MetaUser {
     if (n == UINT32_MAX - 1) { why = "holds a config item that was already finalised (heap name released)"; return false; }
     if (n == UINT32_MAX) { why = "holds an unexpected name"; return false; }
     void *m = it_value(it);
-    if (!n) {
-      if (m || it_elements(it)) { why = "has no name but a value or children"; return false; }
-      v = 0;
-      return true;
-    }
     int r = index(m);
-    if (r != (int)((n - 1) % R + 1)) { why = "name '" + std::string(kNames[n]) + "' with the wrong value metatype"; return false; }
-    if (obj[r]->destroyed) { why = "references metatype #" + std::to_string(r) + " which was already destroyed"; return false; }
-    v = n + (it_elements(it) ? NNames : 0);
+    if (m && !r) { why = "holds an unknown value pointer"; return false; }
+    if (r && obj[r]->destroyed) { why = "references metatype #" + std::to_string(r) + " which was already destroyed"; return false; }
+    v = enc(n, (uint32_t)r, it_elements(it) != 0);
     return true;
   }
   void tally(const void *p) override {
@@ -437,6 +434,7 @@ struct Sim {
   Handle h[3];
   bool strict = true;   // compare values with the model (no constructor failure was injected in this operation)
   bool nontrivial = false;
+  bool variant = false;  // round 7 variants on their own selector slots: unservable reserve sizes, unnamed config items
   unsigned ops_ok = 0;
 
   Sim(Ctx &ctx) : c(ctx) {
@@ -534,7 +532,7 @@ struct Sim {
   void adopt(Handle &x) {
     const type_traits *t = x.b()->traits;
     x.tr = t;
-    x.k = !t ? 0 : (t == primary->traits || t == primary->alias) ? primary : (t == other->traits || t == other->alias) ? other : x.k;
+    x.k = !t ? 0 : (t == primary->traits || t == primary->alias) ? primary : (t == other->traits || t == other->alias) ? other : (t == primary->wide.get() || t == other->wide.get()) ? 0 : x.k;
   }
   // draw a failing constructor call for the next library call
   void arm(Kind *k) {
@@ -786,14 +784,17 @@ struct Sim {
     Handle &x = pick_handle();
     int hi = (int)(&x - h);
     size_t n = x.vals.size();
-    int which = (int)c.weighted({8, 3, 3, 2});  // same, alias, other kind, raw
+    // same, alias, other kind, raw; variant: a type with the same finaliser but another element size
+    int which = variant ? (int)c.weighted({8, 3, 3, 2, 3}) : (int)c.weighted({8, 3, 3, 2});
     Kind *k = x.k ? x.k : primary;
     const type_traits *tr;
     Kind *nk = k;
     if (!x.b()) which = which == 1 ? 0 : which;
     if (x.b() && !x.k && which == 1) which = 0;
+    if (which == 4 && !x.k) which = 0;
     switch (which) {
-      case 0: tr = x.tr ? x.tr : k->traits; break;
+      case 0: tr = x.tr ? x.tr : k->traits; if (x.b() && !x.k && x.tr) nk = 0; break;  // (a buffer of the opaque wide type stays what it is)
+      case 4: tr = k->wide.get(); nk = 0; break;
       case 1: tr = (x.tr == k->traits) ? k->alias : k->traits; break;
       case 2: nk = (k == primary) ? other : primary; tr = nk->traits; break;
       default: nk = 0; tr = 0; break;
@@ -801,6 +802,8 @@ struct Sim {
     size_t esz = nk ? nk->size : 1;
     size_t len = c.near({0, n * esz, 64, 192}, 16 * esz);
     if (c.chance(24)) len += 1;  // not a multiple of the element size: rounded up by the library
+    bool huge = variant && c.chance(80);
+    if (huge) len = ((size_t)1 << (41 + c.range(0, 21))) + c.range(0, 64) * 8;  // no allocator serves this (allocator_may_return_null=1): the reserve must fail cleanly
     CBuf *before = x.b();
     uint32_t flags_before = before ? flags_of(before) : 0;
     bool was_shared = flags_before & BufferShared;
@@ -812,7 +815,24 @@ struct Sim {
     if (compatible) note_detach(x, before, was_shared || (flags_before & BufferImmutable));  // mpt_array_reserve copies (not moves) out of an immutable buffer
     c.logf("  -> %s", ret ? "ok" : "refused");
     obs.viol.raise(c, "reserve");
+    if (!ret && huge) {
+      c.label(compatible ? "reserve:unservable-same-type" : "reserve:unservable-retype");
+      if (was_shared) c.label("reserve:unservable-shared");
+      // a refused re-typing of a private buffer may already have discarded the old elements (they were to be discarded anyway):
+      // the handle then owns none; what counts is that every element is finalised exactly once
+      if (!compatible && before && x.b() == before && !(flags_before & (BufferShared | BufferImmutable)) && before->used == 0 && !x.vals.empty()) {
+        x.vals.clear();
+        nontrivial = true;
+        c.label("reserve:unservable-retype-cleared");
+      }
+    }
     if (ret) {
+      VP_CHECK(c, !huge, "reserve-result", "mpt_array_reserve claims to have reserved %zu bytes", len);
+      if (which == 4) {
+        // mpt_buffer_set documents "compatible types must share finalizer and size": elements of another size cannot be kept
+        c.label("reserve:same-finaliser-other-size");
+        VP_CHECK(c, x.b()->used == 0, "retype-keeps-foreign-elements", "reserve for a type of element size %zu kept %zu bytes of elements of size %zu (same finaliser): they will be finalised with the wrong stride", tr->size, x.b()->used, k->size);
+      }
       VP_CHECK(c, (CBuf *)ret == x.b(), "reserve-result", "mpt_array_reserve returned %p, handle holds %p", (void *)ret, (void *)x.b());
       VP_CHECK(c, x.b()->size >= len || (flags_of(x.b()) & BufferMapped), "reserve-result", "reserved %zu bytes, buffer size is %zu", len, x.b()->size);
       if (compatible) {
@@ -1107,8 +1127,56 @@ struct Sim {
     }
   }
 
+  // config items: lazy removal (name cleared, value / children kept) and reuse of such slots by mpt_config_item_reserve
+  void op_cfg() {
+    typedef CfgItemKind K;
+    Handle &x = pick_handle();
+    int hi = (int)(&x - h);
+    if (x.b() && (x.k != primary || (flags_of(x.b()) & (BufferShared | BufferImmutable)))) return;  // both work in place on an array the caller owns
+    size_t n = x.vals.size(), S = primary->size;
+    if (c.flip()) {
+      if (!x.b() || !n) return;
+      size_t e = c.pick(n);
+      config_item *it = (config_item *)slot(x.b(), e, S);
+      c.logf("h%d: item %zu gives up its name (lazy removal), value and children stay", hi, e);
+      mpt_identifier_set(&K::it_ident(it), 0, 0);
+      if ((x.vals[e] & 15) && (x.vals[e] & ~15u)) { nontrivial = true; c.label("cfg:unnamed-with-content"); }
+      x.vals[e] &= ~15u;
+      sync("name cleared");
+      return;
+    }
+    uint32_t t = (uint32_t)c.range(1, NNames);
+    CObj<path> p;
+    p->sep = '.';
+    mpt_path_set(p, kNames[t], -1);
+    c.logf("mpt_config_item_reserve(h%d, \"%s\")  (length %zu)", hi, kNames[t], n);
+    config_item *ret = mpt_config_item_reserve(reinterpret_cast<unique_array<config_item> *>(x.a.get()), p);
+    c.logf("  -> %s", ret ? "ok" : "refused");
+    obs.viol.raise(c, "config item reserve");
+    if (ret) {
+      size_t idx = n, unused = n;
+      for (size_t i = 0; i < n; i++) {
+        if (!(x.vals[i] & 15)) { if (unused == n) unused = i; continue; }
+        if ((x.vals[i] & 15) == t) { idx = i; break; }
+      }
+      if (idx < n) c.label("cfg:reserve-existing");
+      else if (unused < n) {
+        idx = unused;
+        if (x.vals[idx]) { nontrivial = true; c.label("cfg:reserve-reuses-unnamed-with-content"); } else c.label("cfg:reserve-reuses-default");
+        x.vals[idx] = K::enc(t, 0, (x.vals[idx] & 256) != 0);  // old value released, children removed (the buffer object may stay attached)
+      } else {
+        x.vals.push_back(K::enc(t, 0, false));
+        c.label("cfg:reserve-appends");
+      }
+      if (!x.k) { x.k = primary; x.tr = primary->traits; }
+      VP_CHECK(c, x.b() && (uint8_t *)ret == slot(x.b(), idx, S), "reserve-result", "mpt_config_item_reserve returned %p, item %zu is at %p", (void *)ret, idx, x.b() ? (void *)slot(x.b(), idx, S) : 0);
+    }
+    sync("config item reserve");
+  }
+
   void step() {
     for (auto &x : h) x.relax = false;
+    if (variant && libkind && !strcmp(libkind->name, "cfgitem") && c.chance(72)) { op_cfg(); return; }
     if (libkind && !strcmp(libkind->name, "command") && c.chance(64)) { op_command(); return; }
     if (libkind && !strcmp(libkind->name, "array") && c.chance(72)) { op_nested(); return; }
     switch (c.weighted({7, 24, 12, 14, 6, 8, 3, 9, 10, 4, 3, 3})) {
@@ -1141,8 +1209,9 @@ struct Sim {
   }
 };
 
-static void run_c(Ctx &c, int kind) {
+static void run_c(Ctx &c, int kind, bool variant = false) {
   Sim s(c);
+  s.variant = variant;
   switch (kind) {
     case 0: s.primary = s.tok16.get(); s.other = s.tok24.get(); break;
     case 1: s.primary = s.tok24.get(); s.other = s.tok16.get(); break;
@@ -1154,8 +1223,9 @@ static void run_c(Ctx &c, int kind) {
     default: s.libkind.reset(new CommandKind()); break;
   }
   if (s.libkind) { s.primary = s.libkind.get(); s.other = s.tok24.get(); }
-  c.logf("element kind: %s", s.primary->name);
+  c.logf("element kind: %s%s", s.primary->name, variant ? " (variant: unservable reserve sizes, unnamed config items)" : "");
   c.label(s.primary->name);
+  if (variant) c.label("variant:unservable-sizes");
   while (c.more()) s.step();
   s.finish();
   if (s.nontrivial) c.nontrivial();
@@ -1816,7 +1886,8 @@ static void run(Ctx &c) {
   uint8_t sel = c.u8();
   // 0..6: C API with the element kind (tok16 tok24 array metaref ident cfgitem command); 7..: C++ containers
   // slots 30 and 31 (duplicates no corpus file used) were given to: item_array with names around the identifier limit, input references
-  static const uint8_t map[32] = {0, 0, 0, 0, 0, 1, 1, 1, 2, 2, 2, 3, 3, 4, 4, 5, 5, 6, 6, 7, 7, 7, 7, 8, 8, 9, 9, 10, 10, 11, 13, 12};
+  // slots 4, 7, 10, 12, 14, 16, 18 (duplicates no corpus file used): the same element kinds as round 7 variant (value 32 + kind)
+  static const uint8_t map[32] = {0, 0, 0, 0, 32, 1, 1, 33, 2, 2, 34, 3, 35, 4, 36, 5, 37, 6, 38, 7, 7, 7, 7, 8, 8, 9, 9, 10, 10, 11, 13, 12};
   switch (int k = map[sel % 32]) {
     case 7: { CxxSim<typed_array<CT>> s(c, "typed_array"); s.run(); break; }
     case 8: { CxxSim<unique_array<CT>> s(c, "unique_array"); s.run(); break; }
@@ -1824,7 +1895,7 @@ static void run(Ctx &c) {
     case 10: c.flip() ? run_refarray<4>(c) : run_refarray<24>(c); break;
     case 11: run_itemarray(c); break;
     case 13: run_itemarray(c, true); break;
-    default: run_c(c, k); break;
+    default: if (k >= 32) run_c(c, k - 32, true); else run_c(c, k); break;
   }
 }
 
